@@ -83,11 +83,41 @@ def run(ctx, replay):
                   cinit_def="P = 6 /\\ A = 3 /\\ B = 7 /\\ MaxAdv = 40 /\\ NoCheckpoint = TRUE")
     scs = scenarios(ctx)
     execute(ctx, scs, "c03", ["C03."])
+    overlapping(ctx)
     return vlib.finish(ctx, "model_checking",
                        "scenario = arrival pattern (bursts, sustained traffic across entry expiry, gaps, retries) for a rate set; "
                        "the admission potential is evaluated after every admitted request, i.e. over every interval; distinct = "
                        "distinct (rate set, step sequence); non-trivial = at least one rejection and one admission",
                        RC.ASSUMPTIONS)
+
+
+OVERLAP = "C03.BoundHoldsWhenRequestsOverlap"
+
+
+def overlapping(ctx, replaying=False):
+    """'however the requests are timed' includes requests of one source that overlap: goroutine driver on fresh limiters (frozen
+    clock, one rate with a one-hour period: a source is admitted exactly its burst per round); every other round the rates come
+    from a slow rate extractor. The totals at quiescence are decided by Trace_Conc."""
+    cfg = {"goroutines": 12, "ops": 150, "rounds": 30 if ctx.quick() else 300, "clause": OVERLAP}
+    tp = vlib.os.path.join(ctx.work, "trace-c03-overlap.ndjson")
+    p = vlib.run_harness(ctx, ["stress", "rate", "-trace", tp, "-seed", str(ctx.seed), "-cfg", vlib.json.dumps(cfg), "-hang", "120"],
+                         allow_fail=True)
+    sc = {"id": "rate", "cfg": cfg, "steps": [], "component": "rate-stress"}
+    if p.returncode == 3:
+        ctx.hangs.append(dict(sc))
+        return 0
+    if p.returncode != 0:
+        raise vlib.InfraError("rate stress driver failed: " + p.stderr[-2000:])
+    res = vlib.validate_trace(ctx, "Trace_Conc", tp, "c03-overlap")
+    n = 0
+    for b in res["bad"]:
+        if b["clause"] == OVERLAP:
+            n += 1
+            vlib.add_violation(ctx, OVERLAP, OVERLAP, dict(sc, recorded=vlib.scenario_traces(tp).get("rate", [])), "rate-stress",
+                               detail="overlapping requests of one source were admitted beyond its burst at one instant")
+    ctx.traces += 1
+    ctx.scenarios += 1
+    return n
 
 
 def execute(ctx, scs, tag, prefixes):
@@ -110,6 +140,12 @@ def execute(ctx, scs, tag, prefixes):
 def replay_one(ctx, path, prefixes):
     rec = vlib.json.load(open(path))
     sc = rec["scenario"]
+    if rec.get("component") == "rate-stress":
+        if overlapping(ctx, True):
+            print("VIOLATION property=%s replay=%s" % (ctx.pid, path))
+            return 1
+        print("replay: the concurrent driver did not reproduce the report in this run")
+        return 0
     tp = vlib.run_scenarios(ctx, "rate", [sc], "replay")
     res = vlib.validate_trace(ctx, "Trace_Rate", tp, "replay")
     bad = [b for b in res["bad"] if any(b["clause"].startswith(p) for p in prefixes)]
